@@ -207,3 +207,12 @@ Example C20_acquire_timeout :
   lock_ok acq_checked = true /\ data_ok CGlobal acq_checked = true /\
   out_of (run AllFaults acq_checked [true]) = ORaise /\ count_acq (evs_of (run AllFaults acq_checked [true])) = 0%nat.
 Proof. exact acquire_timeout_example. Qed.
+
+(* `del d[k]` of a possibly absent key between acquire and release, outside try/finally: rejected, the witness path
+   raises after the acquire and never releases *)
+Example C20_raising_statement_outside_try :
+  lock_ok tidy_del_graph = false /\ find_bad lockA AllFaults 0 tidy_del_graph 6 2 = Some [true; true] /\
+  out_of (run AllFaults tidy_del_graph [true; true]) = ORaise /\
+  map ev_code (evs_of (run AllFaults tidy_del_graph [true; true])) = [(1, 1); (2, 0); (3, 0); (4, 0)] /\
+  balanced (evs_of (run AllFaults tidy_del_graph [true; true])) = false.
+Proof. exact raising_outside_try_example. Qed.
